@@ -148,6 +148,20 @@ CLAIMED["C17"] = dict(
          "translator facts, extraction + driver, harness door verif::forwarded",
     design="DESIGN.md 5 C17")
 
+CLAIMED["C01"] = dict(
+    text="Coq theorems on the model of the per-request decision of a tunnel session (Model/TunnelGate.v) for ANY authenticator function, any "
+         "Proxy-Authorization value and any request sequence: with an authenticator configured a request passes the gate exactly when it "
+         "carries 'Basic <token>' (visible ASCII) with a token the authenticator accepts, or no header on a connection whose SNI credentials "
+         "it accepted; every other request is answered 407 with the challenge and has no egress; a 200 or any egress needs the gate; a "
+         "connection with rejected SNI credentials serves nothing; the answer to a request equals the answer it gets alone (per-request "
+         "decision); the registry accepts exactly base64(user:password) of configured pairs and no SNI credentials. Tied by translator "
+         "facts (GateFacts.v) and by whole sessions of the real HttpDownstream + Tunnel + DirectForwarder over in-memory transports with "
+         "real HTTP/1.1 bytes and a real h2 client against canary TCP/UDP listeners (egress observed, not inferred)",
+    note="partial: HTTP/3 is covered through the shared Stream/Tunnel code only (no QUIC transport in the harness); ICMP egress is not "
+         "observable without raw sockets in the session context; trusted: Coq kernel, Model/TunnelGate.v, translator facts, extraction + "
+         "driver, harness door verif::session",
+    design="DESIGN.md 5 C01")
+
 PENDING_REASON = "check under construction in this round (designed in DESIGN.md, not yet wired into ./check)"
 
 
